@@ -279,15 +279,9 @@ static void explore(int depth)
 {
   const std::string tag = std::string("dataview/") + TN<T>::s();
   const int A = (int)OPS<T>().size();
-  const int nshards = 32;
-  vr::run_sharded(nshards, [&](int shard, long long resume_after) {
-    sq::shard_begin(tag, shard, resume_after);
-    sq::Explorer ex(A, depth);
-    ex.tag = tag;
-    ex.run = [](const std::vector<int> &h, const std::string &rp) { return run_history<T>(h, rp, false); };
-    ex.sigctx = [](const std::vector<int> &h) { return "DataView|crash during " + (h.empty() ? std::string("setup") : OPS<T>()[h.back()].cls); };
-    ex.go(shard, nshards, resume_after);
-  });
+  sq::explore_tree(
+      tag, A, depth, 32, [](const std::vector<int> &h, const std::string &rp) { return run_history<T>(h, rp, false); },
+      [](const std::vector<int> &h) { return "DataView|crash during " + (h.empty() ? std::string("setup") : OPS<T>()[h.back()].cls); });
   vr::note(tag + ": alphabet " + std::to_string(A) + " operations, depth " + std::to_string(depth));
 }
 
